@@ -257,19 +257,21 @@ Definition kgroups (k : key) : list (packet * list packet) := gkey k :: map guid
 Lemma groups_uids : forall us rest, fst (groups rest) = [] ->
   groups (flat_map export_uid us ++ rest) = ([], map guid us ++ snd (groups rest)).
 Proof.
-  induction us as [|u us IH]; intros rest Hr; simpl.
-  - destruct (groups rest) as [a b]. simpl in *. subst. reflexivity.
-  - unfold export_uid at 1. rewrite <- app_comm_cons, <- app_assoc.
-    rewrite groups_block; auto. rewrite (IH rest Hr). reflexivity. rewrite (IH rest Hr). reflexivity.
+  induction us as [|u us IH]; intros rest Hr.
+  - simpl. destruct (groups rest) as [a b]. simpl in *. subst. reflexivity.
+  - cbn [flat_map map]. unfold export_uid at 1. rewrite <- app_assoc. rewrite <- app_comm_cons.
+    rewrite groups_block; [|reflexivity|rewrite (IH rest Hr); reflexivity].
+    rewrite (IH rest Hr). reflexivity.
 Qed.
 
 Lemma groups_subs : forall sks rest, fst (groups rest) = [] ->
   groups (flat_map export_sub sks ++ rest) = ([], map gsub sks ++ snd (groups rest)).
 Proof.
-  induction sks as [|sk sks IH]; intros rest Hr; simpl.
-  - destruct (groups rest) as [a b]. simpl in *. subst. reflexivity.
-  - unfold export_sub at 1. rewrite <- app_comm_cons, <- app_assoc.
-    rewrite groups_block; auto. rewrite (IH rest Hr). reflexivity. rewrite (IH rest Hr). reflexivity.
+  induction sks as [|sk sks IH]; intros rest Hr.
+  - simpl. destruct (groups rest) as [a b]. simpl in *. subst. reflexivity.
+  - cbn [flat_map map]. unfold export_sub at 1. rewrite <- app_assoc. rewrite <- app_comm_cons.
+    rewrite groups_block; [|reflexivity|rewrite (IH rest Hr); reflexivity].
+    rewrite (IH rest Hr). reflexivity.
 Qed.
 
 Lemma groups_export : forall k rest, fst (groups rest) = [] ->
@@ -287,7 +289,7 @@ Qed.
 
 Lemma groups_exports : forall ks, groups (flat_map export ks) = ([], flat_map kgroups ks).
 Proof.
-  induction ks as [|k ks IH]; simpl; auto.
+  induction ks as [|k ks IH]; [reflexivity|]. cbn [flat_map].
   rewrite groups_export; rewrite IH; reflexivity.
 Qed.
 
@@ -300,7 +302,7 @@ Proof.
 Qed.
 
 Lemma exports_not_trust : forall ks, forallb not_trust (flat_map export ks) = true.
-Proof. induction ks as [|k ks IH]; simpl; auto. rewrite forallb_app, export_not_trust, IH. reflexivity. Qed.
+Proof. induction ks as [|k ks IH]; [reflexivity|]. cbn [flat_map]. rewrite forallb_app, export_not_trust, IH. reflexivity. Qed.
 
 (* ---------- importing the groups of one exported key ---------- *)
 Definition wf_pub (k : key) : Prop := forall sk, In sk (p_subs k) -> sk_public sk = p_public k.
@@ -352,7 +354,7 @@ Proof.
     erewrite upd_last_snoc.
     2:{ unfold key_or_sub. simpl. rewrite E, eqb_reflx. reflexivity. }
     rewrite IH.
-    + simpl. unfold copy_sub, strip_sub. simpl. rewrite tops_map_Top, E. reflexivity.
+    + simpl. unfold copy_sub, strip_sub. simpl. rewrite tops_map_Top. reflexivity.
     + intros sk' H'. simpl. apply Hp. right. exact H'.
 Qed.
 
@@ -371,9 +373,9 @@ Lemma import_keys_groups : forall kl ks,
   (forall k, In k kl -> wf_pub k) -> NoDup (map kid ks ++ map kid kl) ->
   imp_groups (flat_map kgroups kl) ks = Ok (ks ++ map (fun k => copy (strip_nonexportable k)) kl).
 Proof.
-  induction kl as [|k kl IH]; intros ks Hw Hnd; simpl.
-  - rewrite app_nil_r. reflexivity.
-  - rewrite import_key_groups.
+  induction kl as [|k kl IH]; intros ks Hw Hnd.
+  - simpl. rewrite app_nil_r. reflexivity.
+  - cbn [flat_map map]. rewrite import_key_groups.
     + rewrite IH.
       * rewrite <- app_assoc. reflexivity.
       * intros k' H'. apply Hw. right. exact H'.
